@@ -318,9 +318,9 @@ fn run(run: &mut Run) {
         Tier::Thorough => run.enumerate("chains-depth4", chains_total(4), &chain_case(4)),
         Tier::Quick => {}
     }
-    run.explore("random-chains", run.tier.pick(200_000, 1_000_000), 40, &random_chain_case);
-    run.explore("flatten", run.tier.pick(100_000, 1_000_000), 400, &flatten_case);
-    run.explore("general-angles", run.tier.pick(200_000, 2_000_000), 60, &general_case);
+    run.explore("random-chains", run.tier.pick(400_000, 4_000_000), 40, &random_chain_case);
+    run.explore("flatten", run.tier.pick(250_000, 3_000_000), 400, &flatten_case);
+    run.explore("general-angles", run.tier.pick(500_000, 6_000_000), 60, &general_case);
 }
 fn case(sub: &str) -> Option<Box<CaseFn<'static>>> {
     match sub {
